@@ -237,5 +237,96 @@ PROPS["C17"] = {
     "exhaustive": False,
 }
 
+PROPS["C18"] = {
+    "budget": {"quick": 50, "thorough": 420},
+    "rule": "every function and constant reachable by walking the `std` struct at run time (so a newly exported function is covered without touching the harness; 86 functions, 4 constants on the pinned tree). Per function: arguments from the boundary "
+            "product of its declared parameter types (extreme ints, NaN / +-inf / +-0 / subnormals, 36 strings incl. empty, multi-byte, NUL, numeric look-alikes, 14 byte arrays incl. non-byte values and ill-formed UTF-8, iterators that end immediately or never) plus random values, "
+            "called through create_call and - when the arguments are printable - as SimpleSL text (results must agree). Oracle: no panic, no runtime error, the result belongs to the declared result type (contents and tag), constants belong to their declared types; "
+            "independent expectations for len, bit counts, byte/bit reversal, integer logs, float classification, to_bits/from_bits, to_float/to_int, parse_int, split / replace / contains / starts_with / ends_with / chars / bytes / str_from_utf8 / trim*, to_string. "
+            "42 file-system scenarios in a scratch directory (missing path, directory-instead-of-file, file-instead-of-directory component, non-empty directory, existing target, name too long, embedded NUL, /proc) with required success / struct{error_code, msg} and observable effect; "
+            "7 stdin states for cgetline in child processes (empty, one line, no newline, CRLF, Unicode, invalid UTF-8, NUL). distinct_nontrivial = distinct calls (function + argument values).",
+    "assumptions": COMMON_ASSUME + ["runs as root: permission bits cannot make a path unwritable, so 'unwritable' is exercised through /proc and file-instead-of-directory components only",
+                                    "transcendental functions are only checked for signature and absence of panics (their values are the platform libm's)"],
+    "floors": {"quick": {"calls": 15000, "calls-with-independent-expectation": 6000, "shape:functions_called": 85, "fs-fault-states": 42, "cgetline-stdin-states": 7, "constants-judged": 4, "text-route-calls": 3000},
+               "thorough": {"calls": 200000, "calls-with-independent-expectation": 80000, "shape:functions_called": 85, "fs-fault-states": 42, "cgetline-stdin-states": 7, "constants-judged": 4, "text-route-calls": 30000}},
+    "level": "fault_enumeration",
+    "technique": "runtime signature monitor over run-time discovered std functions with boundary/random arguments, independent reference results, enumerated file-system and stdin fault states",
+    "level_text": "Every exported function is called with the boundary product of its declared parameter types and random values; results are checked against the declared type and, for the documented pure helpers, an independent implementation; file-system and stdin fault states are enumerated explicitly.",
+    "level_note": "fault states are the enumerated ones (no injected I/O errors below the syscall level); permission faults are not reachable as root",
+    "exhaustive": False,
+}
+
+def _c16_miri(prop, tier, seed, rundir, merged, env, root, log):
+    """Miri over miniature C16 workloads: several schedule seeds per workload, workloads in parallel."""
+    import os, subprocess, time
+    mdir = os.path.join(root, "miri")
+    menv = dict(env, CARGO_TARGET_DIR=os.path.join(root, "target", "miri"))
+    workloads = ["cell-add", "readers", "helpers"] if tier == "quick" else ["cell-add", "cell-mul", "cell-or", "cell-pow", "cell-assign", "helpers", "code", "readers"]
+    nseeds = 2 if tier == "quick" else 16
+    lo = (seed * 97) % 100000
+    base = ["cargo", "+nightly", "miri", "run", "-q", "--"]
+    t0 = time.time()
+    # build once (and learn whether Miri works at all here)
+    b = subprocess.run(base + ["noop"], cwd=mdir, env=dict(menv, MIRIFLAGS="-Zmiri-disable-isolation"), stdout=subprocess.PIPE, stderr=subprocess.STDOUT, text=True)
+    info = {"workloads": {}, "build_s": round(time.time() - t0, 1)}
+    viol = []
+    if b.returncode != 0 or "OK noop" not in b.stdout:
+        info["unavailable"] = b.stdout[-600:]
+        merged["inconclusive"]["miri-unavailable"] = 1
+        merged["counters"]["miri_runs_ok"] = 0
+        return {"miri": info}
+    procs = []
+    for w in workloads:
+        flags = f"-Zmiri-disable-isolation -Zmiri-ignore-leaks -Zmiri-many-seeds={lo}..{lo + nseeds}"
+        procs.append((w, subprocess.Popen(base + [w], cwd=mdir, env=dict(menv, MIRIFLAGS=flags), stdout=subprocess.PIPE, stderr=subprocess.PIPE, text=True)))
+    ok_total = 0
+    limit = 900 if tier == "quick" else 7200
+    for w, p in procs:
+        try:
+            out, err = p.communicate(timeout=max(30, limit - (time.time() - t0)))
+        except subprocess.TimeoutExpired:
+            p.kill(); out, err = p.communicate()
+            merged["inconclusive"][f"miri-timeout:{w}"] = 1
+            info["workloads"][w] = {"status": "timeout"}
+            continue
+        oks = out.count("OK ")
+        ok_total += oks
+        info["workloads"][w] = {"seeds": f"{lo}..{lo + nseeds}", "ok": oks, "rc": p.returncode}
+        if p.returncode != 0:
+            low = err.lower()
+            cls = ("data-race" if "data race" in low else "deadlock" if "deadlock" in low else "undefined-behavior" if "undefined behavior" in low
+                   else "assertion" if "panicked" in low else None)
+            if cls:
+                idx = max(low.find("error:"), 0)
+                viol.append({"key": f"c16:miri:{w}:{cls}", "what": f"Miri workload {w} (seeds {lo}..{lo + nseeds}): {cls}: {err[idx:idx + 1200]}", "kind": "c16-miri", "payload": w})
+            else:
+                merged["inconclusive"][f"miri-failed-without-verdict:{w}"] = 1
+                info["workloads"][w]["stderr_tail"] = err[-400:]
+    merged["counters"]["miri_runs_ok"] = ok_total
+    info["wall_s"] = round(time.time() - t0, 1)
+    merged["evaluations"] += ok_total
+    return {"miri": info, "violations": viol, "distinct_extra": ok_total}
+
+
+PROPS["C16"] = {
+    "post": _c16_miri,
+    "budget": {"quick": 60, "thorough": 600},
+    "shards": {"quick": 4, "thorough": 4},
+    "rule": "short concurrent runs in child processes (so a stall can be inspected and killed): T in {2,3,4,8,16} threads released together by a barrier, with optional yields injected between interpreter steps (never inside a cell's critical section). "
+            "Scenarios: (cell) one host-built `mut int` shared by all threads, each applying one of the 12 assignment operators N times through the same parsed function and returning the values its assignments yielded - operands are chosen so that updates commute and "
+            "each update is a bijection (+= 1, -= 1, *= 3, ^= unique bit, |= own bit, &= clear own bit, <<= 1, >>= 1, /= 3 on 3^39, **= 3 on odd values, %= m, = unique value), so atomicity <=> final content is the closed form and the multiset of yielded values is the sequential chain; "
+            "(isolated) 10 functions using every lazily initialised helper (map, filter, iterate, type filter, reducers, modules, stdlib) first touched concurrently, results compared with the sequential run; (code) one parsed Code executed from all threads; "
+            "(readers) half the threads print a cell that contains itself and a cell nested in a cell while the others assign. A run that makes no progress is inspected with `gdb thread apply all bt`: threads parked in RwLock acquisition = deadlock (violation), otherwise inconclusive. "
+            "Plus Miri (cargo +nightly miri run, several schedule seeds) on miniature versions of the same scenarios: data races, deadlocks, UB in the dependency code actually executed. distinct_nontrivial = distinct (scenario, threads, size, yield, run) executions.",
+    "assumptions": COMMON_ASSUME + ["schedules explored are those the OS scheduler, the injected yields and Miri's seeds produce - a sample, not all interleavings",
+                                    "a stall is decided by the thread dump (all blocked in lock acquisition), never by elapsed time alone"],
+    "floors": {"quick": {"runs": 200, "operations": 50000, "shape:assignment_operators": 12, "shape:scenarios": 20, "miri_runs_ok": 4},
+               "thorough": {"runs": 5000, "operations": 2000000, "shape:assignment_operators": 12, "shape:scenarios": 40, "miri_runs_ok": 24}},
+    "technique": "runtime schedule-stress monitor with per-operation unique-value histories on shared cells, gdb thread dumps for stalls, plus Miri (data-race / deadlock detector) on miniature workloads",
+    "level_text": "Hundreds (quick) to tens of thousands (thorough) of short multi-threaded executions over shared Code, Function and cell values with history checks that are exact for atomicity, plus Miri runs over several schedule seeds. A sample of schedules, not an exhaustive exploration.",
+    "level_note": "cannot enumerate interleavings; Miri covers only miniature workloads (2-3 threads, a few operations)",
+    "exhaustive": False,
+}
+
 # properties deliberately not claimed (reason each); anything else missing from PROPS is simply not built yet
 NOT_APPLICABLE = {}
